@@ -246,6 +246,20 @@ pub fn rule(p: Prof, k: RuleK, s: &str) -> R {
     })
 }
 
+/// the same rule with an owned String argument (Cow::Owned inside the library)
+pub fn rule_owned(p: Prof, k: RuleK, s: &str) -> R {
+    guard(|| {
+        let o = s.to_string();
+        with_profile!(p, x => match k {
+            RuleK::Width => cv(x.width_mapping_rule(o)),
+            RuleK::Additional => cv(x.additional_mapping_rule(o)),
+            RuleK::Case => cv(x.case_mapping_rule(o)),
+            RuleK::Norm => cv(x.normalization_rule(o)),
+            RuleK::Dir => cv(x.directionality_rule(o)),
+        })
+    })
+}
+
 /// static fast-invocation forms
 pub fn s_prepare(p: Prof, s: &str) -> R {
     guard(|| match p {
